@@ -219,7 +219,7 @@ func c15TimersChangeReported(c *Ctx, rule string) {
 				avoid[in.Block()] = true
 			}
 		})
-		reached := flow.ReachedUnder(blk, fs, avoid)
+		reached := flow.ReachedUnderPhis(blk, fs, avoid)
 		var exits []*ssa.Return
 		if r, ok := blk.Instrs[len(blk.Instrs)-1].(*ssa.Return); ok {
 			exits = append(exits, r)
